@@ -178,7 +178,7 @@ theorem find_bad_pattern (lookup : Bytes → DirSpec) (pat : Bytes) (st : PadSty
 
 /-- C07: a missing / unreadable directory is an error -/
 theorem find_missing_dir (lookup : Bytes → DirSpec) (pat : Bytes) (st : PadStyle) (strict hidden : Bool)
-    (fs : Seq) (h : Seq.parse st pat = .ok fs) (hd : lookup fs.dir = none) :
+    (fs : Seq) (h : Seq.parse st pat = .ok fs) (hd : lookup (openDir fs.dir) = none) :
     ∃ e, findSequenceOnDisk lookup pat st strict hidden = .error e := by
   refine ⟨.io, ?_⟩
   simp [findSequenceOnDisk, h, hd, scanDir]
